@@ -4,6 +4,7 @@ import VC2.Model.WaveletDriver
 import VC2.Model.ConstraintDriver
 import VC2.Model.SymReDriver
 import VC2.Model.FixedDictDriver
+import VC2.Model.StreamDriver
 open VC2 VC2.Gen
 
 def parseInts (ws : List String) : Option (List Int) :=
@@ -31,6 +32,7 @@ def step (line : String) : String :=
   | "wt" :: rest => VC2.Model.Wavelet.handleWt rest
   | "re" :: rest => VC2.Model.SymRe.handleRe rest
   | "fd" :: rest => VC2.Model.FixedDict.handleFd rest
+  | "vd" :: rest => VC2.Model.Stream.handleVd rest
   | "vs" :: rest => VC2.Model.Constraint.handleVs rest
   | "ct" :: rest => VC2.Model.Constraint.handleCt rest
   | _ => "bad-op"
